@@ -30,7 +30,7 @@ PROPS = {
         'assumptions': COMMON_ASSUME + ['heights passed to onNewConsensusRound only take effect when increasing (SetHeightAndResetView, proved in C13)', 'reading of the statement: "before it" = before the node starts H (DESIGN.md C17)'],
     },
     'C15': {
-        'engines': [{'name': 'registry'}, {'name': 'world', 'quick_args': ['-n', '60'], 'thorough_args': ['-n', '1200']}, RUNTIME],
+        'engines': [{'name': 'registry'}, {'name': 'world', 'quick_args': ['-n', '70'], 'thorough_args': ['-n', '1200']}, RUNTIME],
         'corr_modules': ['Term'],
         'trusted_base': ['theorems in coq/props/C15.v about coq/theories/Contexts.v (proofs in ContextsFacts.v), Loops.v (proofs in LoopsFacts.v) and Term.v (ctx_ok guards; proofs in TermFacts.v)'],
         'assumptions': COMMON_ASSUME + ['context.WithCancel semantics of the Go standard library (a child is done iff it or its parent was cancelled)',
@@ -38,7 +38,7 @@ PROPS = {
         'notes': ['part (a) registry laws: proved for all op sequences; part (b) loop discipline: proved for all interleavings of the two-goroutine model; "results under a cancelled context are not broadcast" is checked on the implementation by the runtime and world engines (ctx_ok guards in Term.v)'],
     },
     'C07': {
-        'engines': [{'name': 'world', 'quick_args': ['-n', '60'], 'thorough_args': ['-n', '1200']},
+        'engines': [{'name': 'world', 'quick_args': ['-n', '70'], 'thorough_args': ['-n', '1200']},
                     {'name': 'worldkf1', 'quick_args': ['-n', '25'], 'thorough_args': ['-n', '300']}],
         'corr_modules': ['Term'],
         'trusted_base': ['theorems in coq/props/C07.v about coq/theories/Term.v (proofs in TermFacts.v)'],
@@ -46,20 +46,20 @@ PROPS = {
         'notes': ['full statement refuted by known finding KF-1 (standalone PREPREPARE in a view above 0); proved theorem is the partial one'],
     },
     'C08': {
-        'engines': [{'name': 'world', 'quick_args': ['-n', '60'], 'thorough_args': ['-n', '1200']}, {'name': 'filter'}],
+        'engines': [{'name': 'world', 'quick_args': ['-n', '70'], 'thorough_args': ['-n', '1200']}, {'name': 'filter'}],
         'also_report': ('C17',),
         'corr_modules': ['Term'],
         'trusted_base': ['theorems in coq/props/C08.v about coq/theories/Term.v (proofs in TermFacts.v)'],
         'assumptions': COMMON_ASSUME + ['signature flags as in C07', 'membership = ids of the committee returned by Membership for the height'],
     },
     'C10': {
-        'engines': [{'name': 'world', 'quick_args': ['-n', '60'], 'thorough_args': ['-n', '1200']}],
+        'engines': [{'name': 'world', 'quick_args': ['-n', '70'], 'thorough_args': ['-n', '1200']}],
         'corr_modules': ['Term'],
         'trusted_base': ['theorems in coq/props/C10.v about coq/theories/Term.v (proofs in TermFacts.v)'],
         'assumptions': COMMON_ASSUME + ['committee total weight < 2^64', 'one term per height (C13)'],
     },
     'C09': {
-        'engines': [{'name': 'world', 'quick_args': ['-n', '60'], 'thorough_args': ['-n', '1200']}],
+        'engines': [{'name': 'world', 'quick_args': ['-n', '70'], 'thorough_args': ['-n', '1200']}],
         'corr_modules': ['Term'],
         'trusted_base': ['theorems in coq/props/C09.v about coq/theories/Term.v (proofs in TermFacts.v)'],
         'assumptions': COMMON_ASSUME + ['committee total weight < 2^64', 'the node is a member of the committee of the height (otherwise it has no term)', 'sort.Slice on at most 12 votes is stable (Go uses insertion sort below 12 elements); ties between equal proof views are irrelevant to the theorems'],
@@ -77,20 +77,20 @@ PROPS = {
         'assumptions': COMMON_ASSUME + ['signature flags of the proof nodes = KeyManager.VerifyConsensusMessage over the proof\'s block reference bytes; seed flag = KeyManager.VerifyRandomSeed against the seed derived from the previous proof', 'committee ids pairwise distinct, total weight < 2^64', 'ValidateBlockCommitment is a function of (height, block, hash)'],
     },
     'C12': {
-        'engines': [{'name': 'world', 'quick_args': ['-n', '60'], 'thorough_args': ['-n', '1200']}, {'name': 'worldnil', 'quick_args': ['-n', '40'], 'thorough_args': ['-n', '800']}, {'name': 'vbc', 'quick_args': ['-n', '1500'], 'thorough_args': ['-n', '20000']}, {'name': 'wire', 'quick_args': ['-n', '120'], 'thorough_args': ['-n', '2500']}, RUNTIME],
+        'engines': [{'name': 'world', 'quick_args': ['-n', '70'], 'thorough_args': ['-n', '1200']}, {'name': 'worldnil', 'quick_args': ['-n', '40'], 'thorough_args': ['-n', '800']}, {'name': 'vbc', 'quick_args': ['-n', '1500'], 'thorough_args': ['-n', '20000']}, {'name': 'wire', 'quick_args': ['-n', '120'], 'thorough_args': ['-n', '2500']}, RUNTIME],
         'corr_modules': ['Term', 'VBC', 'Wire', 'WireLH'],
         'trusted_base': ['theorems in coq/props/C12.v about coq/theories/Term.v, VBC.v, Leader.v (proofs in TermFacts.v)'],
         'assumptions': COMMON_ASSUME + ['Go recover() catches the run-time panics of slicing / nil dereference inside the guarded sections', 'membuffers unsafe reads stay inside the backing array for the byte strings tried (memory unsafety is not expressible in the model)'],
         'notes': ['runtime fatal errors (stack overflow, OOM on hostile sizes) are outside the model'],
     },
     'C13': {
-        'engines': [{'name': 'world', 'quick_args': ['-n', '60'], 'thorough_args': ['-n', '1200']}, {'name': 'statehv'}, RUNTIME],
+        'engines': [{'name': 'world', 'quick_args': ['-n', '70'], 'thorough_args': ['-n', '1200']}, {'name': 'statehv'}, RUNTIME],
         'corr_modules': ['Term'],
         'trusted_base': ['theorems in coq/props/C13.v about coq/theories/Term.v (proofs in NodeFacts.v, TermFacts.v) and Contexts.v'],
         'assumptions': COMMON_ASSUME + ['committee totals < 2^64', 'the consumer\'s ValidateBlockProposal / ValidateBlockCommitment only accept blocks whose height is the height being decided (then the committed block has the term\'s height)', 'all State writes and callbacks happen on the worker goroutine (checked structurally by the runtime engine, not by the theorem)'],
     },
     'C14': {
-        'engines': [RUNTIME, {'name': 'world', 'quick_args': ['-n', '60'], 'thorough_args': ['-n', '1200']}],
+        'engines': [RUNTIME, {'name': 'world', 'quick_args': ['-n', '70'], 'thorough_args': ['-n', '1200']}],
         'corr_modules': ['Term'],
         'trusted_base': ['theorems in coq/props/C14.v about coq/theories/Loops.v (proofs in LoopsFacts.v), Contexts.v and Term.v (start_term)'],
         'assumptions': COMMON_ASSUME + ['the Go scheduler eventually runs an enabled step of each goroutine and select eventually picks a ready case (the theorems give enabledness and the state after the step; the runtime engine observes that accepted syncs do take effect)',
@@ -105,7 +105,7 @@ PROPS = {
         'notes': ['partial in the sense of the brief: the model cannot exhibit wall-clock bounds or leaked goroutines; those are observed on the real runtime at random cancellation points'],
     },
     'C01': {
-        'engines': [{'name': 'world', 'quick_args': ['-n', '60'], 'thorough_args': ['-n', '1200']},
+        'engines': [{'name': 'world', 'quick_args': ['-n', '70'], 'thorough_args': ['-n', '1200']},
                     {'name': 'worldkf1', 'quick_args': ['-n', '25'], 'thorough_args': ['-n', '300']}],
         # agreement rests on "a correct member endorses one hash per view" (Own.E_unique, C10) and on "a vote carries the voter's lock" (C09): both kinds of finding are reported here too
         'also_report': ('C10', 'C09'),
@@ -118,7 +118,7 @@ PROPS = {
         'notes': ['full statement refuted (C01_full_statement_refuted: a kernel-checked forking run with one Byzantine member out of four); the same script forks the real nodes on every run of this check (KNOWN-FINDING KF-1)'],
     },
     'C03': {
-        'engines': [{'name': 'world', 'quick_args': ['-n', '60'], 'thorough_args': ['-n', '1200']}, {'name': 'vbc', 'quick_args': ['-n', '1500'], 'thorough_args': ['-n', '20000']}, {'name': 'filter'}],
+        'engines': [{'name': 'world', 'quick_args': ['-n', '70'], 'thorough_args': ['-n', '1200']}, {'name': 'vbc', 'quick_args': ['-n', '1500'], 'thorough_args': ['-n', '20000']}, {'name': 'filter'}],
         # the proof's reference takes its instance id from a stored COMMIT: that every stored COMMIT is of this instance is the raw filter's guarantee (C17)
         'also_report': ('C17',),
         'corr_modules': ['Term', 'VBC', 'Filter'],
@@ -128,7 +128,7 @@ PROPS = {
                                         'the peer is configured with the same instance id and committee; total weight < 2^64; the committer is a member of the committee'],
     },
     'C04': {
-        'engines': [{'name': 'world', 'quick_args': ['-n', '60'], 'thorough_args': ['-n', '1200']}],
+        'engines': [{'name': 'world', 'quick_args': ['-n', '70'], 'thorough_args': ['-n', '1200']}],
         # a lock that lets a receiver skip ValidateBlockProposal must be a genuine prepared proof: the reference predicate for accepted messages is C08's
         'also_report': ('C08',),
         'corr_modules': ['Term'],
@@ -148,7 +148,7 @@ PROPS = {
         'notes': ['partial: see the header of coq/props/C05.v for the exact split'],
     },
     'C11': {
-        'engines': [{'name': 'world', 'quick_args': ['-n', '60'], 'thorough_args': ['-n', '1200']}],
+        'engines': [{'name': 'world', 'quick_args': ['-n', '70'], 'thorough_args': ['-n', '1200']}],
         'corr_modules': ['Term'],
         'trusted_base': ['theorems in coq/props/C11.v about coq/theories/Term.v (proofs in Accept.v, Own.v, TermFacts.v)'],
         'assumptions': COMMON_ASSUME + ['sender and receiver use the same committee, height and instance id',
